@@ -20,6 +20,16 @@ FILE *__real_fopen64(const char *path, const char *mode);
 ssize_t __real_read(int fd, void *buf, size_t n);
 ssize_t __real_write(int fd, const void *buf, size_t n);
 ssize_t __real_writev(int fd, const struct iovec *iov, int cnt);
+off64_t __real_lseek64(int fd, off64_t off, int whence);
+
+off64_t __wrap_lseek64(int fd, off64_t off, int whence) {
+    if (fd >= 0 && fd == g_ctl.watchFd && g_ctl.noSeek) {
+        ++g_ctl.seeksRefused;
+        errno = ESPIPE;
+        return (off64_t)-1;
+    }
+    return __real_lseek64(fd, off, whence);
+}
 
 FILE *__wrap_fopen64(const char *path, const char *mode) {
     ++g_ctl.opens;
@@ -74,10 +84,20 @@ static void noteWrite(int fd, ssize_t r) {
     }
 }
 
+static bool failWrite(int fd, size_t n) {
+    return fd >= 0 && fd == g_ctl.watchFd && g_ctl.writeFailAt >= 0 && g_ctl.writePos + (long)n > g_ctl.writeFailAt;
+}
+
 ssize_t __wrap_write(int fd, const void *buf, size_t n) {
     if (fd > 2) {
         ++g_ctl.writes;
         if (g_ctl.yieldHook) g_ctl.yieldHook();
+    }
+    if (failWrite(fd, n)) {
+        for (size_t i = 0; i < n; ++i) g_ctl.bufferSum += ((const unsigned char *)buf)[i];
+        ++g_ctl.writeFaults;
+        errno = ENOSPC;
+        return -1;
     }
     ssize_t r = __real_write(fd, buf, n);
     if (fd > 2) noteWrite(fd, r);
@@ -88,6 +108,15 @@ ssize_t __wrap_writev(int fd, const struct iovec *iov, int cnt) {
     if (fd > 2) {
         ++g_ctl.writevs;
         if (g_ctl.yieldHook) g_ctl.yieldHook();
+    }
+    size_t total = 0;
+    for (int i = 0; i < cnt; ++i) total += iov[i].iov_len;
+    if (failWrite(fd, total)) {
+        for (int i = 0; i < cnt; ++i)
+            for (size_t k = 0; k < iov[i].iov_len; ++k) g_ctl.bufferSum += ((const unsigned char *)iov[i].iov_base)[k];
+        ++g_ctl.writeFaults;
+        errno = ENOSPC;
+        return -1;
     }
     ssize_t r = __real_writev(fd, iov, cnt);
     if (fd > 2) noteWrite(fd, r);
